@@ -638,6 +638,12 @@ class Interp:
         raise Unsupported("delattr on non-object")
 
     def hasattr(self, obj, name):
+        if name == "__iter__":
+            # python protocol probe (`hasattr(x, "__iter__")`): containers and tensors are iterable, numbers are not
+            if isinstance(obj, (tuple, list, dict, set, frozenset, str, GenList)):
+                return True
+            if isinstance(obj, (SV, int, float, bool)) or obj is None:
+                return False
         try:
             self._getattr(obj, name)
             return True
